@@ -5,5 +5,6 @@ From Inj Require Import Base X86 EncAmd64 Os OsProofs Amd64Install EncArm64 EncA
 From Inj.gen Require Import SrcConsts.
 
 (* the Linux allocator: the search window and the strictness of the distance test *)
-Lemma src_alloc : RANGE = LINUX_MAX_RANGE /\ forall oc, c_alloc (cfg_amd64 oc) = alloc_jit (ALLOC_STRICT =? 1).
-Proof. split; [reflexivity|intros; reflexivity]. Qed.
+Lemma src_alloc : RANGE = LINUX_MAX_RANGE /\ (ALLOC_STRICT =? 1) = true /\ forall oc, c_alloc (cfg_amd64 oc) = alloc_jit (ALLOC_STRICT =? 1).
+Proof. split; [reflexivity|]. assert (E : (ALLOC_STRICT =? 1) = true) by (vm_compute; reflexivity).     (* a mismatch fails here, at once *)
+  split; [exact E|]. rewrite E. intros; reflexivity. Qed.
